@@ -10,9 +10,15 @@ BDDNode.nodes()) for two nodes with the same (var, low, high).
 The observer asks `!=` as well as `==` (must be complementary); histories re-parse the TEXT of a live pool entry under
 another ordering (the same text under two orderings alive together), put one OBDD object into two slots, use one object
 as both operands, and spell some binary steps with augmented assignment; the variable names a, ab, b, bb contain one
-another."""
+another.
+Second-audit streams (worker and generators in c16_streams.py, same history language, bddlib.compare_history + extra observers):
+'crowd' histories (a 48-slot pool whose roots have a terminal child: the parent sets a lookup scans hold 20+ nodes), 'gc' histories
+(dropped OBDDs parked in cycles, ONE forced gc.collect() INSIDE the next operation at a drawn line of library code, the automatic
+collector on with small thresholds in a third of them), and in both: every entry against 0 / 1 / True / False / BDDNode(0/1), the
+written slot against the root NODES of the others, hash()/set membership of equal OBDDs whenever the class is hashable."""
 from common import *
 import bddlib as B
+import c16_streams as S
 LEVEL = 'proof'
 
 PSIZE = 6
@@ -164,6 +170,12 @@ def pairs_history(rng, O, basis):
 
 
 def batch(histories):
+    stream = histories[0].get('stream')
+    if stream == 'gc':
+        # -> (violations, info, the history with its explicit collection points)
+        return [(v, info, h) for h, v, info in S.run_batch_gc(histories)]
+    if stream == 'crowd':
+        return [(v, info, h) for (v, info, _), h in zip(S.run_batch(histories), histories)]
     return B.run_batch(histories)
 
 
@@ -183,7 +195,16 @@ def run(R):
               'and reloaded in the other notation, while four of the texts are kept alive under the reversed ordering. Batches of 10 histories share one fresh interpreter (pool released and collected in '
               'between; the table must be empty again). A case = a history; non-trivial = it has a step after which two distinct pool '
               'slots hold the same non-constant function under the same ordering, or a drop/gc/overwrite step after which the number of '
-              'live nodes in the unique table went down (nodes were really freed)' % (PSIZE, len(PAIR_BASIS)))
+              'live nodes in the unique table went down (nodes were really freed).  SECOND-AUDIT STREAMS (worker of c16_streams.py: the same '
+              'observations plus constants / node operands / hash, see cov): crowd histories (quick 5, thorough 24): a 48-slot pool loaded with '
+              'x & g, x | g, ~x & g, ~x | g (x mostly the top variable of the ordering, g random over the others; a fifth of the slots under a second '
+              'ordering), so that the parent sets of the terminals - the sets find_isomorph scans - hold 20+ nodes, then 24 steps that parse single '
+              'variables / small expressions, combine, restrict, drop, collect (the == / != / identity matrices of these big pools are refreshed for '
+              'the touched slot at each step and in full at gc steps); gc histories (quick 120, thorough 600, 7 slots, <= 36 steps): ~45%% of the '
+              'steps park an OBDD in an unreachable cycle and the next operation gets ONE forced gc.collect() inside it, at the k-th line executed by '
+              'a function of the library (two thirds of the draws among the functions whose code touches f_low / f_high / Tnodes / .data, one third '
+              'among all functions of the step; places found by a counting pass of the same history in the same interpreter), a third of them also '
+              'with the automatic collector on (thresholds 1..211, 1..3, 1..3) while the operations run' % (PSIZE, len(PAIR_BASIS)))
     R.cov['live_count_rule'] = LIVE_RULE
     nh, maxlen = (8000, 200) if R.thorough else (3000, 30)
     hs = []
@@ -198,18 +219,40 @@ def run(R):
     if not R.thorough:
         perms = [perms[0], perms[23], perms[9], perms[14]]
     pair_hs = [pairs_history(rng, list(O), basis) for O in perms]
-    batches = B.chunks(hs, 10) + [[h] for h in pair_hs]
+    n_crowd, n_gc = (24, 600) if R.thorough else (5, 120)
+    crowd_hs = [S.gen_crowd(rng) for _ in range(n_crowd)]
+    gc_hs = [S.gen_churn(rng, 36 if i % 3 else 20) for i in range(n_gc)]
+    batches = [[h] for h in crowd_hs] + B.chunks(hs, 10) + [[h] for h in pair_hs] + B.chunks(gc_hs, 10)
     results = B.parallel(batch, batches)
     kinds, statuses, lens = {}, {}, {}
+    xs = {k: {'histories': 0, 'steps': 0, 'max_parents_of_terminal_0_low': 0, 'max_parents_of_terminal_1_high': 0, 'max_parent_set': 0,
+              'steps_where_the_class_was_hashable': 0, 'forced_collections_inside_function': {},
+              'histories_with_the_automatic_collector_on': 0} for k in ('crowd', 'gc')}
     twin_steps = freed_steps = garbage_steps = steps = shadow_steps = 0
     max_live = 0
     for bt, res in zip(batches, results):
-        for h, (viol, info, _) in zip(bt, res):
+        for h, (viol, info, hx) in zip(bt, res):
             R.evaluations += 1
             for v in viol:
-                B.report_violation(R, 'C16', h, v)
+                if h.get('stream'):
+                    S.report_violation(R, 'C16', hx, v)
+                else:
+                    B.report_violation(R, 'C16', h, v)
             if viol:
                 continue
+            if h.get('stream'):
+                st = xs[h['stream']]
+                st['histories'] += 1
+                st['steps'] += len(info)
+                st['max_parents_of_terminal_0_low'] = max([st['max_parents_of_terminal_0_low']] + [s['par0'] for s in info])
+                st['max_parents_of_terminal_1_high'] = max([st['max_parents_of_terminal_1_high']] + [s['par1'] for s in info])
+                st['max_parent_set'] = max([st['max_parent_set']] + [s['parmax'] for s in info])
+                st['steps_where_the_class_was_hashable'] += sum(1 for s in info if s['hashable'])
+                for a in (hx.get('gcmode') or {}).get('at') or []:
+                    if a:
+                        st['forced_collections_inside_function'][a[0]] = st['forced_collections_inside_function'].get(a[0], 0) + 1
+                if (hx.get('gcmode') or {}).get('thr'):
+                    st['histories_with_the_automatic_collector_on'] += 1
             shadow_steps += h.get('n_shadow', 0)
             nt = False
             for op, s in zip(h['ops'], info):
@@ -231,15 +274,26 @@ def run(R):
             lens['%d-%d' % (b, b + 24)] = lens.get('%d-%d' % (b, b + 24), 0) + 1
             if nt:
                 R.nontriv(tuple(B.op_text(o) for o in h['ops']))
-                if h['psize'] == PSIZE:
+                if h['psize'] == PSIZE and not h.get('stream'):
                     R.sample({'history': [B.op_text(o) for o in h['ops'][:12]], 'length': len(h['ops'])})
     R.cov['distribution'] = {
         'histories': len(hs), 'all_pairs_histories': len(pair_hs), 'steps': steps, 'op_kinds': kinds,
         'expected_errors': statuses, 'history_length': lens,
         'parses_of_a_live_text_under_another_ordering': shadow_steps, 'steps_with_twin_slots': twin_steps, 'steps_that_freed_nodes': freed_steps,
         'steps_with_uncollected_garbage_in_the_table': garbage_steps, 'max_live_nodes': max_live}
+    R.cov['second_audit_streams'] = xs
+    R.cov['constant_and_hash_observers'] = (
+        'in the crowd and gc streams, after every step: p == c, p != c, c == p for c in 0, 1, True, False and p == BDDNode(0), '
+        'p == BDDNode(1) for every entry p (expected from the model\'s truth table: equal exactly when p is that constant); the slot '
+        'written by the step against the root node of every entry under the same ordering, both directions (expected: the model\'s == '
+        'matrix); hash(p): the unchanged class defines __eq__ only and is unhashable (TypeError recorded, nothing compared, see '
+        'steps_where_the_class_was_hashable); if it is hashable, entries that compare equal must hash equal and find one another in a '
+        'set and as dict keys')
     R.exhaustive = False
 
 
 def replay(R, data):
-    B.replay_history(R, data)
+    if data['data'].get('stream'):
+        S.replay_history(R, data)
+    else:
+        B.replay_history(R, data)
